@@ -167,7 +167,7 @@ K("k_pixels_per_tile", "tileset", "TileSize::pixels_per_tile == w*h, all u16^2",
 for n in (6, 3):
     K("k_reader_prims_%d" % n, "reader", "byte/word/short/dword/long/read_exact at every position: LE value of the next w bytes, or IoError(UnexpectedEof) iff fewer remain", ["reader::AseReader::byte", "reader::AseReader::word", "reader::AseReader::short", "reader::AseReader::dword", "reader::AseReader::long", "reader::AseReader::read_exact", "reader::AseReader::skip_reserved"], label=BS, bound="cursor over %d symbolic bytes, every start position" % n)
 K("k_reader_sequence", "reader", "consecutive reads see consecutive bytes; end of input is an error value", ["reader::AseReader::*"], label=BS, bound="9 symbolic bytes")
-for n in (5, 2, 1):
+for n in (6, 1):
     K("k_reader_string_%d" % n, "reader", "string(): Ok(text) iff declared bytes present and UTF-8; InvalidInput for bad UTF-8; UnexpectedEof if short", ["reader::AseReader::string", "error::From<FromUtf8Error>"], label=BS, bound=shape(n))
 K("k_error_mapping", "error", "io::Error -> IoError carrying the same kind; source() is Some exactly for IoError", ["error::From<io::Error>", "error::AsepriteParseError::source"])
 
@@ -177,6 +177,79 @@ DECODERS = [o for o in """k_parse_chunk_type k_parse_pixel_format k_check_chunk_
  k_scale_6bit k_palette_chunk_20 k_palette_chunk_26 k_palette_chunk_35 k_old04_chunk_10 k_old04_chunk_2 k_old11_chunk_10 k_old11_chunk_13 k_validate_indexed
  k_ext_files_12 k_ext_files_27 k_ext_files_41 k_cel_chunk_15 k_cel_chunk_17 k_cel_chunk_18 k_cel_raw_rgba_28 k_cel_raw_gray_24 k_cel_raw_indexed_23
  k_pixel_count k_cels_table k_gray_rgba k_indexed_as_rgba k_from_bytes_8 k_from_bytes_6 k_from_bytes_5 k_tile_parse k_tilemap_bits k_tile_bitmask_header
- k_tileset_head_33 k_tileset_head_34 k_tileset_head_44 k_pixels_per_tile k_reader_prims_6 k_reader_prims_3 k_reader_sequence k_reader_string_5 k_reader_string_2
+ k_tileset_head_33 k_tileset_head_34 k_tileset_head_44 k_pixels_per_tile k_reader_prims_6 k_reader_prims_3 k_reader_sequence k_reader_string_6
  k_reader_string_1 k_error_mapping""".split()]
 PROPS["CK"] = {"level": "proof", "obligations": DECODERS}
+
+# ---------------------------------------------------------------- Verus (unbounded, real text extracted each run)
+V("v_compute_parents", "parents", "compute_parents: for EVERY layer sequence whose first level is 0: result[i] is None iff level 0, else the nearest preceding layer with a smaller level (parent id < child id); terminates; the assert! can never fire",
+  ["layer::compute_parents"], fn="compute_parents")
+V("v_from_vec", "parents", "LayersData::from_vec establishes compute_parents' precondition (first layer at level 0) or returns Err: no underflow / panic for any layer list",
+  ["layer::LayersData::from_vec"], fn="from_vec", witness="x_total_load")
+V("v_write_raw_cel", "raster_raw", "write_raw_cel_to_image, unbounded sizes and all i16 offsets: canvas size unchanged; every canvas pixel inside the cel rectangle == blend(mode, old pixel, pixels[(Y-y0)*w+(X-x0)], round8(layer opacity, cel opacity)), every other pixel unchanged; no index out of bounds, no overflow",
+  ["file::write_raw_cel_to_image"], fn="write_raw_cel_to_image", witness="x_frames_vs_spec")
+V("v_tilemap_tile", "tilemap", "TilemapData::tile(x,y) == Some(tiles[y*w+x]) iff x<w && y<h (given tiles.len()==w*h), for all u16 coordinates",
+  ["tilemap::TilemapData::tile", "tilemap::TilemapData::width", "tilemap::TilemapData::height"], fn="tile", witness="x_tilemap_views")
+V("v_tile_slice", "tilemap", "tile_slice(pixels, size, id) == pixels[id*area .. (id+1)*area] under (id+1)*area <= len; no overflow", ["file::tile_slice"], fn="tile_slice", witness="x_tilemap_views")
+V("v_pixels_per_tile", "tilemap", "TileSize::pixels_per_tile == w*h without u32 overflow", ["tileset::TileSize::pixels_per_tile", "tileset::TileSize::width", "tileset::TileSize::height"], fn="pixels_per_tile")
+V("v_write_tilemap_cel", "tilemap", "write_tilemap_cel_to_image under R-pre (tiles.len()==w*h, every tile inside the tileset pixels, canvas <= 65535^2): every index in bounds, no i32/i64/usize overflow for ANY 16-bit map and tile size and offset, get/put_pixel in range, canvas size unchanged",
+  ["file::write_tilemap_cel_to_image", "tileset::Tileset::tile_size"], fn="write_tilemap_cel_to_image", witness="x_usable_after_load")
+
+BLEND_LEAVES = ["k_mul_un8", "k_div_un8", "k_blend8"] + ["k_ch_" + m for m in ["multiply", "screen", "overlay", "darken", "lighten", "color_dodge",
+                "color_burn", "hard_light", "difference", "exclusion", "divide"]] + ["k_ch_soft_light_range", "k_merge", "k_normal_alpha",
+                "k_normal_r", "k_normal_g", "k_normal_b", "k_normal_full", "k_pack_i32", "k_pack_f64"]
+BLEND_WRAPPERS = ["k_blend_channel", "k_blender"] + ["k_mode_" + m for m in ALL_MODES]
+LAYER_DEC = ["k_parse_layer_type", "k_parse_blend_mode", "k_layer_chunk_17", "k_layer_chunk_18", "k_layer_chunk_21", "k_layer_chunk_24"]
+TAGS_DEC = ["k_parse_animation_direction", "k_tags_chunk_10", "k_tags_chunk_30", "k_tags_chunk_49"]
+SLICE_DEC = ["k_slice_chunk_14", "k_slice_chunk_34", "k_slice_chunk_58"]
+PAL_DEC = ["k_scale_6bit", "k_palette_chunk_20", "k_palette_chunk_26", "k_palette_chunk_35", "k_old04_chunk_10", "k_old04_chunk_2", "k_old11_chunk_10", "k_old11_chunk_13"]
+EXT_DEC = ["k_ext_files_12", "k_ext_files_27", "k_ext_files_41"]
+TS_DEC = ["k_tileset_head_33", "k_tileset_head_34", "k_tileset_head_44", "k_pixels_per_tile"]
+CEL_DEC = ["k_cel_chunk_15", "k_cel_chunk_17", "k_cel_chunk_18", "k_cel_raw_rgba_28", "k_cel_raw_gray_24", "k_cel_raw_indexed_23", "k_pixel_count"]
+PIX = ["k_gray_rgba", "k_indexed_as_rgba", "k_from_bytes_8", "k_from_bytes_6", "k_from_bytes_5"]
+READER = ["k_reader_prims_6", "k_reader_prims_3", "k_reader_sequence", "k_reader_string_6", "k_reader_string_1"]
+UD_DEC = ["k_user_data_4", "k_user_data_8", "k_user_data_12"]
+CP_DEC = ["k_color_profile_15", "k_color_profile_16", "k_color_profile_20"]
+
+def prop(id, level, obls, explanation, **kw):
+    d = {"level": level, "obligations": obls, "explanation": explanation}
+    d.update(kw)
+    PROPS[id] = d
+
+prop("C01", "proof", ["k_parse_chunk_type", "k_parse_pixel_format", "k_check_chunk_bytes", "k_pixel_format_accessors"] + READER + LAYER_DEC + TAGS_DEC + SLICE_DEC
+     + ["k_palette_chunk_20", "k_palette_chunk_26", "k_palette_chunk_35"] + EXT_DEC + TS_DEC + ["x_roundtrip_structure", "x_header_extremes"],
+     "Leaf decoders are under contract (enum decoders proved over their whole domain; chunk decoders field-by-field against the file-format layout on fixed payload sizes with symbolic contents). The composition (header, frame dispatch, accessors) cannot be executed symbolically by Kani nor extracted for Verus and is a bounded stand-in (x_*).")
+prop("C02", "proof", ["v_write_raw_cel", "v_write_tilemap_cel", "v_tile_slice", "v_tilemap_tile", "k_mul_un8", "k_cels_table", "x_mode_table", "x_frames_vs_spec", "x_cel_order_irrelevant", "x_blend_public_api"],
+     "The raw-cel rasteriser is proved FUNCTIONALLY correct by Verus for unbounded sizes (placement, clipping, row-major index, opacity product, blend call). mul_un8 == round8 and the cel table's storage-order independence are Kani contracts. frame_image / write_cel / is_visible glue and the dispatch table (Kani ICE, no dyn in Verus) are bounded stand-ins.")
+prop("C03", "proof", BLEND_LEAVES + BLEND_WRAPPERS + ["k_parse_blend_mode", "x_mode_table", "x_soft_light", "x_hsl_kernels", "x_blend_public_api"],
+     "14 integer modes: leaves == Aseprite macros over their full domains, normal/merge == reference over all 2^72 inputs, every mode function == RGBA_BLENDER_N structure modulo callees (uninterpreted-function abstraction). soft light and the four HSL modes: integer skeleton proved, f64 kernels bounded-exec (soft light exhaustive over 65536 pairs).")
+prop("C04", "proof", ["v_compute_parents", "v_from_vec", "k_check_chunk_bytes", "k_scale_6bit", "k_parse_chunk_type", "k_parse_pixel_format"] + LAYER_DEC + TAGS_DEC + SLICE_DEC + PAL_DEC + EXT_DEC
+     + TS_DEC + CEL_DEC + UD_DEC + CP_DEC + READER + ["k_tilemap_bits", "k_tile_parse", "k_cels_table", "x_total_load"],
+     "Totality contracts: every Kani decoder harness also discharges the automatic no-panic / no-overflow / in-bounds checks for all contents of its payload size; Verus proves compute_parents and that from_vec establishes its precondition. Whole-load totality (glue, zlib, stack depth, allocation) is fault enumeration in an isolated child process.", level_note_extra="fault enumeration for the composition")
+prop("C05", "proof", ["v_write_raw_cel", "v_write_tilemap_cel", "v_tile_slice", "v_tilemap_tile", "v_pixels_per_tile", "k_validate_indexed", "k_indexed_as_rgba", "k_tileset_head_34", "k_tileset_head_44", "x_usable_after_load"],
+     "Assume/guarantee: the renderers are proved panic-free under explicit preconditions R-pre (Verus, unbounded); that validation establishes R-pre for everything that loads is checked by fault enumeration: every loadable corrupted file is driven through every accessor.")
+prop("C06", "proof", PIX + ["k_cel_chunk_15", "k_cel_chunk_17", "k_cel_chunk_18", "k_cel_raw_rgba_28", "k_cel_raw_gray_24", "k_cel_raw_indexed_23", "v_write_raw_cel", "x_frames_vs_spec", "x_roundtrip_structure", "x_neutral_encodings"],
+     "Pixel conversions proved for all values; cel header / raw payload decode on fixed sizes; placement + alpha scaling is the Verus rasteriser contract; zlib storage, linked cels and the transparent-index rule end-to-end are bounded-exec against the composition spec.")
+prop("C07", "exploration", ["k_parse_chunk_type", "k_layer_chunk_24", "k_tileset_head_44", "x_neutral_encodings", "x_cel_order_irrelevant"],
+     "Mostly glue and zlib: bounded exploration over seeded models x ~30 encoding choices; contract part: ignorable chunk codes map to the three ignorable kinds (all u16), trailing payload bytes do not change a decoder's result (layer / tileset shapes with slack bytes).")
+prop("C08", "proof", ["k_tile_parse", "k_tile_bitmask_header", "k_tilemap_bits", "k_pixels_per_tile", "v_tilemap_tile", "v_tile_slice", "v_pixels_per_tile", "v_write_tilemap_cel", "x_tilemap_views"],
+     "Tile word decode, tile lookup and tile slicing are contracts over unbounded sizes; the Tilemap / Tileset views need a loaded sprite and are compared with each other and with the model on seeded sprites.")
+prop("C09", "proof", ["v_compute_parents", "v_from_vec", "x_forest_exhaustive"],
+     "compute_parents is proved by Verus on the real text for ALL layer sequences (any length, any depth) whose first level is 0 - the forests of the property are a subset; from_vec establishes that precondition. Layer::parent / is_visible / the compositing gate are exhaustively executed for every forest of up to 6 (quick) / 8 (thorough) layers and every flag assignment.")
+prop("C10", "exploration", UD_DEC + ["x_userdata_exhaustive", "x_roundtrip_structure"],
+     "The attachment state machine lives in ParseInfo (HashMaps, Arc, nested Vecs) and parse_frame; neither verifier can execute it. Exhaustive bounded exploration of all admissible chunk sequences up to length 5 / 6 against the rule written as a pure fold; the user-data chunk decoder itself is a Kani contract.")
+prop("C11", "proof", PAL_DEC + ["k_validate_indexed", "x_palette_precedence", "x_indexed_needs_palette"],
+     "6-bit scaling proved for all u8; palette chunk decoders against the layout on fixed sizes; pixel-index validation on a bounded shape; precedence between chunks and the load failure for incomplete palettes are bounded-exec.")
+prop("C13", "exploration", READER + ["k_check_chunk_bytes", "x_truncation"],
+     "Reader primitives return an error value whenever fewer bytes remain than the field needs (contract, every position of a fixed-size cursor); that declared counts drive the reads is glue: every cut offset of generated and corpus files is executed.")
+prop("C14", "exploration", ["k_error_mapping", "k_reader_prims_6", "k_reader_sequence", "x_readers"],
+     "Error mapping (io::Error -> IoError, source()) is a Kani contract; independence of reader behaviour is bounded-exec with scripted readers (short reads, Interrupted, BufReader, files) and a hard error of 6 kinds injected at byte offsets.")
+prop("C15", "proof", ["k_parse_pixel_format", "k_parse_layer_type", "k_parse_blend_mode", "k_parse_animation_direction", "k_parse_chunk_type", "k_cel_chunk_18", "k_cel_chunk_17", "k_tilemap_bits"] + CP_DEC + ["x_refusals"],
+     "Every refusal that is a branch of a contracted function is proved over the whole code domain (colour depth, layer type, blend mode, animation direction, cel type, chunk type, colour profile type/flags, bits per tile); the pixel-ratio rule and 'tileset without pixels' sit in glue and are bounded-exec at every position.")
+prop("C16", "other", ["s_send_sync", "x_determinism", "v_write_raw_cel", "v_write_tilemap_cel", "v_tile_slice", "v_pixels_per_tile", "v_compute_parents", "k_mul_un8", "k_blend8", "k_merge", "k_normal_r", "k_normal_g", "k_normal_b", "k_pixel_count", "k_pixels_per_tile"],
+     "(a) Send + Sync: discharged by rustc's trait solver. (b) no result depends on wrapping arithmetic: the overflow obligations of the Verus units (unbounded) and of the Kani blend leaves. (c) determinism / repeat / permute / 16 threads: sanity stand-in only - interleavings are NOT explored (Kani has no threads; Verus would need its permission types in the real code); the schedule quantifier rests on Rust's Sync + &self guarantee.")
+prop("C17", "proof", ["k_mul_un8", "k_blend8", "k_merge", "k_normal_alpha", "k_pack_i32", "k_pack_f64", "k_ch_soft_light_range", "k_blender"] + ["k_law_" + m for m in ALL_MODES] + ["k_normal_r", "k_normal_g", "k_normal_b"]
+     + ["k_ch_" + m for m in ["multiply", "screen", "overlay", "darken", "lighten", "color_dodge", "color_burn", "hard_light", "difference", "exclusion", "divide"]] + ["k_mode_addition", "k_mode_subtract", "x_hsl_kernels", "x_blend_public_api"],
+     "The three laws are proved for all 19 modes (HSL included: alpha never flows through f64) from the contracts of normal / merge with every other callee uninterpreted. Range clause: integer modes via the leaf contracts (reference value in 0..=255 and equal to the truncated result) and normal's full-domain safety; soft light range proved; HSL packed range only bounded-exec.")
+prop("C18", "exploration", ["x_utils"], "util.rs uses iterator chains and IntMap; bounded-exec on all sizes 1..8 x 1..8 plus seeded sizes and palettes.")
+prop("C19", "exploration", ["x_routes", "x_frames_vs_spec"], "The three constructors need a loaded sprite (Kani cannot build one, Verus cannot extract the borrow structure): bounded-exec on seeded sprites with frames != layers.")
